@@ -281,9 +281,12 @@ class Matrix:
             return self
 
         if self._cached_submatrix is None or (rows != self._cached_rows).any() or (cols != self._cached_cols).any():
+            # invalidate first: if the extraction fails the cache must not pair
+            # the new masks with the previous submatrix
+            self._cached_submatrix = None
+            self._cached_submatrix = self._submatrix(rows, cols)
             self._cached_rows = rows
             self._cached_cols = cols
-            self._cached_submatrix = self._submatrix(rows, cols)
 
         return self._cached_submatrix
 
